@@ -998,6 +998,7 @@ fn sweep_list(widths: &[u32]) -> Vec<(u32, usize)> {
     v
 }
 
+/// widths for the seeded part of the batch (the structural sweep always covers all 20 widths)
 fn der_widths(t: Tier) -> &'static [u32] {
     match t {
         Tier::Quick => &DER_QUICK,
@@ -1014,20 +1015,20 @@ impl TypedScenario for Der {
         8
     }
     fn n_runs(&self, tier: Tier) -> u64 {
-        sweep_list(der_widths(tier)).len() as u64
+        sweep_list(&DER_WIDTHS).len() as u64
             + match tier {
                 Tier::Quick => 30_000,
                 Tier::Thorough => 12_000_000,
             }
     }
     fn generate(&self, seed: u64, tier: Tier, i: u64) -> Plan {
-        let sw = sweep_list(der_widths(tier));
+        let sw = sweep_list(&DER_WIDTHS);
         let mut r = Xoshiro::new(mix(seed, 0x18, i));
         if (i as usize) < sw.len() {
             let (bits, l) = sw[i as usize];
             return Plan::DerSweep { bits, content_len: l, body_seed: r.next() };
         }
-        let bits = *r.pick(der_widths(tier));
+        let bits = if r.chance(1, 4) { *r.pick(&DER_WIDTHS) } else { *r.pick(der_widths(tier)) };
         let x = gen_value(&mut r, bits);
         match r.below(10) {
             0 => Plan::TruncAll { bits, rlp: false, value_be: x.to_bytes_be(), nested: r.chance(1, 3) },
